@@ -19,14 +19,26 @@
       it was written under, sequences as lists, bytearray as bytes; numbers, strings, keys as given);
       the side conditions are those that make "the record as written" defined: distinct dict keys,
       distinct field names, no two union branches of one name, named-schema table holding named types.
+    * `c15_machine_value`, `c15_machine_json_writer`, `c15_machine_emits_spec` — the WRITE side of the grammar machine
+      (fastavro/io/parser.py: grammar built from the schema, symbol stack, lazily executed actions, root symbol
+      restarting the grammar for every record; AvroJSONEncoder: frame stack, `_current`, stale `_key`, `_records`,
+      `flush`), modelled step by step in Model/JsonMachine.lean, computes exactly the function-level encoding —
+      hence the specification's — for every schema in which no record is empty (`nonEmptyRec`) and the recursion
+      guard of `_process_record` stays off (`noSelf`), every non-empty list of records, any nesting depth, provided
+      the objects of the result have distinct non-empty keys (`KeysOk`: always true of Python dicts with distinct
+      field names);
+    * `c15_machine_counterexample_*` — outside those hypotheses the machine really derails, as kernel-checked
+      evaluations of the model: an empty record list, a record without fields in final position, a linked list of
+      depth 3 (findings F33, F5b, F5a); the implementation is compared with the model on these shapes on every run.
   NOT PROVED (checked by the harness on the implementation and against the model): agreement with the
   binary codec (C01's normal form differs from `Spec.written` only in single-precision rounding and
   int → float conversion under float/double), defaults of fields absent from a JSON text that
-  `json_writer` did not produce; and everything about the grammar machine that sequences the encoder/decoder calls
-  (fastavro/io/parser.py), which is not modelled — see known findings F5a–d, F14, F27, F28.
+  `json_writer` did not produce; the READ side of the grammar machine (AvroJSONDecoder driven by `read_data`), which
+  is modelled (JM.decodeAll) and tied by correspondence only — see known findings F5a–d, F14, F27, F28, F33.
 -/
 import Proofs.Json
 import Proofs.JsonBack
+import Proofs.JsonMachine
 
 open Binary Json JsonProofs
 
@@ -64,3 +76,81 @@ example : JsonBack.EnvNamed [] := by intro n d h; cases h
 example : (match Spec.written (fun f bs v => (choose f [] {} bs v).toOption) 6 [] c15schema c15value with
     | some (.dict [(.str "u", .str "B"), (.str "b", .bytes [0, 255]), (.str "m", .dict [(.str "k", .float _)])]) => true
     | _ => false) = true := by decide +kernel
+
+
+/-! ### the grammar machine (write side) -/
+open JM JMProofs
+
+/-- one value, anywhere in a datum: started behind pending actions `acts` on the symbol `G` of its schema, the
+    writer's traversal ends with exactly that symbol consumed and the function-level encoding `j` written where the
+    value belongs (`e3 = write_value(j)` in the state `e1` the pending actions lead to), up to the stale key -/
+theorem c15_machine_value (wut : Bool) (env : Env) (henv : EnvOk env) (o : WOpts) (fuel : Nat)
+    (s : Schema) (v j : Val) (hj : encode wut fuel env o s v = .ok j) (hkeys : KeysOk j)
+    (d : Option Val) (G : Sym) (hG : Gram env s d G) (hne : nonEmptyRec s = true)
+    (st : ES) (acts rest : List Sym) (e1 e3 : Enc) (hentry : Entry st acts G rest e1) (hrest : restOk rest)
+    (hw : e1.writeValue j = .ok e3) (hk : keyOk e1) (hc : curOk e1) :
+    ∃ st', mEncode wut fuel env o s v st = .ok st' ∧ Exit st' rest e3 :=
+  sound_all wut env henv o fuel s v j hj hkeys d G hG hne st acts rest e1 e3 hentry hrest hw hk hc
+
+/-- `json_writer(fo, schema, records)` for a non-empty record list: the documents written are the function-level
+    encodings of the records, in order -/
+theorem c15_machine_json_writer (wut : Bool) (env : Env) (henv : EnvOk env) (hself : EnvNoSelf env) (o : WOpts) (fuel : Nat)
+    (s : Schema) (hs : noSelf s = true) (hne : nonEmptyRec s = true) (ps : List Sym) (hinit : initialStack fuel env s = .ok ps)
+    (v j : Val) (vs js : List Val)
+    (hall : Pairwise2 (fun v j => encode wut fuel env o s v = .ok j ∧ KeysOk j) (v :: vs) (j :: js)) :
+    encodeAll wut fuel env o s (v :: vs) = .ok (j :: js) := by
+  obtain ⟨G, rfl, hG⟩ := initialStack_gram env hself fuel s ps hinit hs
+  exact encodeAll_sound wut env henv o fuel s G hG hne hinit v j vs js hall
+
+/-- … and therefore the specification's JSON encodings (core fragment of `c15_encode_eq_spec`) -/
+theorem c15_machine_emits_spec (env : Env) (henv : EnvOk env) (hself : EnvNoSelf env) (o : WOpts) (fuel : Nat)
+    (s : Schema) (hs : noSelf s = true) (hne : nonEmptyRec s = true) (ps : List Sym) (hinit : initialStack fuel env s = .ok ps)
+    (v j : Val) (vs js : List Val)
+    (hall : Pairwise2 (fun v j => Spec.jsonEncodeCore (fun f bs v => (choose f env o bs v).toOption) fuel env s v = some j ∧ KeysOk j)
+      (v :: vs) (j :: js)) :
+    encodeAll true fuel env o s (v :: vs) = .ok (j :: js) := by
+  refine c15_machine_json_writer true env henv hself o fuel s hs hne ps hinit v j vs js ?_
+  have conv : ∀ (as bs : List Val),
+      Pairwise2 (fun v j => Spec.jsonEncodeCore (fun f bs v => (choose f env o bs v).toOption) fuel env s v = some j ∧ KeysOk j) as bs →
+      Pairwise2 (fun v j => encode true fuel env o s v = .ok j ∧ KeysOk j) as bs := by
+    intro as bs h
+    induction h with
+    | nil => exact .nil
+    | cons hp _ ih => exact .cons ⟨encode_eq_spec env o fuel s _ _ hp.1, hp.2⟩ ih
+  exact conv _ _ hall
+
+/-! outside the hypotheses the machine derails — kernel-checked evaluations of the model (the implementation is
+    compared with the model on these inputs by the check): -/
+def c15rec : Schema := .record "R" [.mk "a" (.prim .int false none) none []] []
+def c15empty : Schema := .record "E" [] []
+def c15list : Schema := .record "L" [.mk "v" (.prim .int false none) none [],
+  .mk "next" (.union [.prim .null false none, .ref "L"]) none []] []
+def c15listEnv : Env := [("L", c15list)]
+def c15node (v : Int) (next : Val) : Val := .dict [(.str "v", .int v), (.str "next", next)]
+
+/-- F33: an empty record list makes `json_writer` raise ('Internal Parser Exception') -/
+theorem c15_machine_counterexample_empty_list :
+    (match encodeAll true 6 [] {} c15rec [] with | .error .other => true | _ => false) = true := by decide +kernel
+/-- F5b: a record without fields in final position -/
+theorem c15_machine_counterexample_zero_fields :
+    (match encodeAll true 6 [] {} c15empty [.dict []] with | .error .other => true | _ => false) = true := by decide +kernel
+/-- F5a: a linked list of depth 3 (IndexError: pop from empty list); depth 2 still works -/
+theorem c15_machine_counterexample_depth3 :
+    (match encodeAll true 9 c15listEnv {} c15list [c15node 1 (c15node 2 (c15node 3 .none))] with | .error .index => true | _ => false) = true ∧
+    (match encodeAll true 9 c15listEnv {} c15list [c15node 1 (c15node 2 .none)] with | .ok [_] => true | _ => false) = true := by
+  constructor <;> decide +kernel
+
+/-! non-vacuity of `c15_machine_json_writer`: two records through one call -/
+example : encodeAll true 6 [] {} c15rec [.dict [(.str "a", .int 5)], .dict [(.str "a", .int 7)]]
+    = .ok [.dict [(.str "a", .int 5)], .dict [(.str "a", .int 7)]] := by
+  have hk : ∀ n : Int, KeysOk (.dict [(.str "a", .int n)]) := by
+    intro n
+    refine .dict _ ?_ ?_ ?_
+    · intro p hp; simp only [List.mem_singleton] at hp; subst hp; exact ⟨"a", rfl, by decide⟩
+    · simp [dictKeys]
+    · intro p hp; simp only [List.mem_singleton] at hp; subst hp
+      exact .leaf _ (by intro kv h; cases h) (by intro xs h; cases h)
+  refine c15_machine_json_writer true [] ?_ ?_ {} 6 c15rec rfl rfl _ rfl _ _ _ _ ?_
+  · intro n d h; cases h
+  · intro n d h; cases h
+  · exact .cons ⟨rfl, hk 5⟩ (.cons ⟨rfl, hk 7⟩ .nil)
